@@ -261,11 +261,13 @@ fn grammar_packets(rng: &mut Rng) -> Vec<Vec<u8>> {
 }
 
 fn c10(thorough: bool, miri: bool, seed: u64, threads: usize) -> Json {
-    let max_tail = if miri { 2 } else if thorough { 6 } else { 5 };
-    let nrandom: u64 = if miri { 400 } else if thorough { 10_000_000 } else { 2_000_000 };
-    let nprefix: usize = if miri { 64 } else { 65536 };
-    let bytes_upto: usize = if miri { 4 } else { 256 };
-    let grammar_stride: usize = if miri { 97 } else { 1 };
+    let max_tail = if miri { 1 } else if thorough { 6 } else { 5 };
+    let nrandom: u64 = if miri { 128 } else if thorough { 10_000_000 } else { 2_000_000 };
+    let nprefix: usize = if miri { 12 } else { 65536 };
+    let bytes_upto: usize = if miri { 3 } else { 256 };
+    let grammar_stride: usize = if miri { 389 } else { 1 };
+    let mut grng = Rng::new(seed ^ 0x6A);
+    let packets_shared: Arc<Vec<Vec<u8>>> = Arc::new(grammar_packets(&mut grng));
     let work = Arc::new(move |shard: usize, nshards: usize, rep: &mut PureReport| {
         // (1) every opcode word 0..7 x all tails of length <= max_tail over the 16-symbol alphabet
         let mut counter = 0usize;
@@ -324,8 +326,7 @@ fn c10(thorough: bool, miri: bool, seed: u64, threads: usize) -> Json {
             }
         }
         // (4) grammar packets: truncated at every length, each NUL removed in turn, each byte flipped
-        let mut grng = Rng::new(seed ^ 0x6A);
-        let packets = grammar_packets(&mut grng);
+        let packets: &Vec<Vec<u8>> = &packets_shared;
         for (i, p) in packets.iter().enumerate() {
             if i % nshards != shard || i % grammar_stride != 0 {
                 continue;
@@ -384,7 +385,7 @@ fn c10(thorough: bool, miri: bool, seed: u64, threads: usize) -> Json {
                 }
                 _ => {
                     // mutate a grammar packet
-                    let mut b = r.pick(&packets).clone();
+                    let mut b = r.pick(packets).clone();
                     for _ in 0..r.range(1, 3) {
                         if b.is_empty() {
                             break;
@@ -457,8 +458,8 @@ fn gen_packet(r: &mut Rng) -> (Packet, RPacket) {
 }
 
 fn c11(thorough: bool, miri: bool, seed: u64, threads: usize) -> Json {
-    let n: u64 = if miri { 600 } else if thorough { 10_000_000 } else { 200_000 };
-    let enum_upto: u16 = if miri { 300 } else { 65535 };
+    let n: u64 = if miri { 240 } else if thorough { 10_000_000 } else { 200_000 };
+    let enum_upto: u16 = if miri { 40 } else { 65535 };
     let work = Arc::new(move |shard: usize, nshards: usize, rep: &mut PureReport| {
         if shard == 0 {
             // enum conversions, exhaustive over u16
